@@ -1084,3 +1084,16 @@ Proof.
   cbv zeta. split; [repeat constructor; cbn; try lia; unfold maxSegmentSize; lia|].
   repeat split; vm_compute; reflexivity.
 Qed.
+
+(* non-vacuity (used by Properties_C02): the cyclic message walked with D = 3 *)
+Lemma cyclic_walk_bounded_example :
+  let c := mkCfg 4096 3 true true in
+  let r := root c cyc_msg 4096 in
+  let a := walkA c (mkFix true true true) cyc_msg 8 8 4 (snd r) (fst r) in
+  msg_ok cyc_msg /\ tree_nofuel (ac_val a) = true /\
+  ac_val a = TStruct [] [TComp 1 (mkOS 0 1) [TStruct [] [TErr]]] /\
+  deref_count (fst r) + ac_d a = 2 /\ deref_size (fst r) + ac_h a = 16.
+Proof.
+  split; [repeat constructor; cbn; try lia; unfold maxSegmentSize; lia|].
+  vm_compute. repeat split.
+Qed.
